@@ -17,7 +17,7 @@ RULE = ("rules: a stratified subfamily covering every operator, repetition form,
         "mode (first/all) and address-only flag, each combination run as its own MasterOfPuppets construction and call. "
         "Oracle (relational, real code vs real code): bool <=> list non-empty in every mode; first-list = all-list[:1]; "
         "address-only[k] = text before the first '::' of full[k]; verdict identical across the 8 runs; a second "
-        "perform_matching() on the same object returns the same value. Non-trivial = some mode reports a match.")
+        "perform_matching() on the same object returns the same value, and so do 8 fresh matchers built from ONE MatchConfig object whose mode fields are changed between them. Non-trivial = some mode reports a match.")
 ASSUMPTIONS = ["patterns that can match the empty sequence are kept (their reported address is the empty string in both forms)"]
 LEVEL_TEXT = ("Every rule of the stratified subfamily x every listing up to the bound x all 8 mode combinations as separate "
               "operations; relational oracle. Exhaustive within bounds.")
@@ -26,6 +26,9 @@ LEVEL_NOTE = "No reference model needed: the 8 runs of the real code are compare
 ALPHA = [("mov", ["%rax", "%rbx"]), ("mov", ["%rbx", "%rax"]), ("push", ["%rax"]), ("ret", []), ("call", ["401030 <f>"])]
 ANY_MACROS = os.path.join(REPO, "tests/macros/jasm_macros.yaml")
 MODES = [(r, m, o) for r in ("bool", "list") for m in ("first", "all") for o in (False, True)]
+# the same 8 combinations in an order where neighbours differ in exactly one field
+GRAY = [("bool", "first", False), ("bool", "all", False), ("list", "all", False), ("list", "all", True), ("bool", "all", True),
+        ("bool", "first", True), ("list", "first", True), ("list", "first", False)]
 
 
 def bounds(tier):
@@ -70,13 +73,30 @@ def build_lsets(h, tier):
             "alpha": e1.ListingSet(h, [ALPHA[0], ALPHA[2], ALPHA[4]], 2, minlen=1, addrs=["abcdef", "deadbeef"])}
 
 
-def run_case(h, doc, macros, path):
+def run_case(h, doc, macros, path, shared=True):
     out = {}
     for r, m, o in MODES:
         mop = h.mop(doc, macros=macros)
         v = h.match(mop, path, ret=r, mode=m, only_addr=o)
-        v2 = mop.perform_matching()
+        v2 = h.match(mop, path, ret=r, mode=m, only_addr=o)
         out[(r, m, o)] = (v, v2)
+    # the same 8 questions asked through ONE MatchConfig object handed to 8 fresh matchers (the caller's configuration
+    # object must not be altered by a question): recorded as the "second call" of a mode if it deviates
+    gd = h.gd
+    cfg = gd.MatchConfig(pattern_pathstr=h.rule_file(doc), input_file=path, input_file_type=gd.InputFileType.assembly, macros=macros)
+    last = {}
+    for r, m, o in (GRAY if shared else ()):
+        # the caller assigns only the field it wants to change; whatever else the object holds is what the caller set earlier
+        for field, val in (("return_mode", gd.MatchingReturnMode.bool if r == "bool" else gd.MatchingReturnMode.matched_addrs_list),
+                           ("matching_mode", gd.MatchingSearchMode.all_finds if m == "all" else gd.MatchingSearchMode.first_find),
+                           ("return_only_address", o)):
+            if last.get(field, None) != val or field not in last:
+                setattr(cfg, field, val)
+                last[field] = val
+        v3 = h.MasterOfPuppets(cfg).perform_matching()
+        v3 = list(v3) if isinstance(v3, list) else v3
+        if v3 != out[(r, m, o)][0]:
+            out[(r, m, o)] = (out[(r, m, o)][0], ("shared MatchConfig", v3))
     return out
 
 
@@ -119,7 +139,7 @@ def run_corpus(shard, tier, h, res, known):
         res.evaluations += 8
         case = {"family": "corpus", "rule": doc, "macros": None, "file": path.replace(REPO, "<repo>"), "size": 50}
         try:
-            out = run_case(h, doc, None, path)
+            out = run_case(h, doc, None, path, shared=False)
         except Exception as e:
             res.fail({**case, "clause": "raises", "expected": "8 results", "observed": repr(e)}, known)
             continue
@@ -146,10 +166,10 @@ def run_shard(shard, tier, h, res, known):
     for ri in range(shard["lo"], len(rules), shard["n"]):
         pat, macros, config = rules[ri]
         doc = make_rule_doc(pat, config)
-        for idx, path, norm, att in ls:
+        for li, (idx, path, norm, att) in enumerate(ls):
             res.evaluations += 8
             try:
-                out = run_case(h, doc, macros, path)
+                out = run_case(h, doc, macros, path, shared=(li % 4 == 1))     # the shared-configuration pass on every 4th listing
             except Exception as e:
                 res.fail({"clause": "raises", "rule": doc, "macros": macros, "listing": [[a, m, list(o)] for a, m, o in att],
                           "expected": "8 results", "observed": repr(e), "size": len(att)}, known)
